@@ -4,7 +4,7 @@ use crate::common::*;
 
 pub fn run(ctx: &Ctx) -> Outcome {
     let mut out = Outcome::default();
-    let d = ctx.tier.pick(6, 8);
+    let d = ctx.tier.pick(7, 8);
     run_and_report(ctx, &nagle(ctx.tier, true, d), &mut out);
     run_and_report(ctx, &nagle(ctx.tier, false, d), &mut out);
     run_and_report(ctx, &nagle_recovery(ctx.tier, d), &mut out);
